@@ -186,6 +186,27 @@ def worker(case):
                     if chain(h) not in back:
                         probs.append(("not-found-by-its-own-name:" + fname, "%s(netlist, %r) does not return the reference named %r" % (fname, nm_, nm_)))
                         break
+                    # the name given twice, or next to a wildcard that covers it: still one reference per occurrence
+                    for pats in ([nm_, nm_], ["*", nm_], [nm_, "*"]):
+                        nq[0] += 1
+                        back = [chain(x) for x in fns[fname](n, pats, recursive=True)]
+                        if len(back) != len(set(back)):
+                            probs.append(("duplicate-reference:%s:pattern-list" % fname, "%s(netlist, %r) returns a reference twice" % (fname, pats)))
+                            break
+                    # ... and from the netlist together with a reference to *another* branch (the walk of one root
+                    # must not disturb the names found from the other; for a root above or below the reference
+                    # itself the documentation does not say which of the two relative names applies)
+                    others = [pth for pc_, pth in occ.inst.items() if len(pth) == 2 and pth[1] is not items_of(h)[1]
+                              and pth[1].reference is not None and len(pth[1].reference.children)]
+                    if len(chain(h)) > 2 and others:
+                        sub = HRef.from_sequence(list(others[0]))
+                        for roots in ([n, sub], [sub, n]):
+                            nq[0] += 1
+                            back = [chain(x) for x in fns[fname](roots, nm_, recursive=True)]
+                            if chain(h) not in back or len(back) != len(set(back)):
+                                probs.append(("two-roots:%s" % fname, "%s([netlist, reference to another branch] in either order, %r): %d results, own reference %s"
+                                              % (fname, nm_, len(back), "present" if chain(h) in back else "missing")))
+                                break
     for pc, path in occ.inst.items():
         href = HRef.from_sequence(list(path))
         depth = len(path)
